@@ -18,16 +18,20 @@
    [U] C10_eff_is_file_membership, C10_eff_executable, C10_eff_unique, C10_filter_is_eff, C10_ser_visits,
        C10_projection_closed, C10_nothing_lost, C10_frame_transfer (operations that never write a file set),
        C10_move_transfer, C10_add_to_file, C10_create_file, C10_remove_from_file, C10_remove_file_partial,
-       C10_remove_file_keeps, C10_remove_last_file, C10_inv, C10_history, C10_reachable
-   [P] C10_remove_file_partial + C10_remove_file_keeps are one half of "removes exactly": that every element attributed
-       to the removed file alone is deleted fails in the model exactly when a deletion fails (finding
-       C10-shortname-own-file-set) and is checked on the implementation by the oracle; C10_self_contained is reduced
-       to the XML layer (C01 / C07) and checked by the oracle (every file text is re-loaded)
+       C10_remove_file_keeps, C10_remove_file_exact, C10_remove_file_exact_index, C10_remove_file_exact_refs,
+       C10_remove_last_file, C10_inv, C10_history, C10_reachable
+   [P] C10_remove_file_exact ("removes exactly") carries the side condition that no SHORT-NAME element of the model has
+       a local file set: without it a deletion of the scan list can fail and the element stays (finding
+       C10-shortname-own-file-set, witness d_short_* in Tree/Files.v); C10_remove_file_exact_index / _refs take
+       agent-c04's IndexExact / RefsExact OF THE RESULT WORLD as hypotheses (their preservation is C04 / C05);
+       C10_self_contained is reduced to the XML layer (C01 / C07) and checked by the oracle (every file text is
+       re-loaded)
    [F] C10_add_foreign_refuted, C10_root_last_refuted, C10_root_last_remove_file_refuted, C10_move_local_refuted
        (vm_compute on the tiny table set of Tree/Files.v). *)
 From AV Require Import Base.Bytes Base.Outcome Hash.HashModel Tree.Heap Tree.Ops Tree.Script Tree.Serialize Tree.Inv.
 From AV Require Import Tree.Files Tree.FilesProofsProj Tree.FilesProofsFrame Tree.FilesProofsAdd Tree.FilesProofsRemove Tree.FilesProofsExact Tree.FilesProofsLast Tree.FilesProofsMove
-  Tree.FilesProofsInv Tree.FilesProofsHist Tree.FilesProofsTop.
+  Tree.FilesProofsInv Tree.FilesProofsHist Tree.FilesProofsTop Tree.FilesProofsExact2.
+From AV Require Tree.Index.
 Open Scope list_scope.
 Open Scope N_scope.
 
@@ -112,9 +116,8 @@ Proof. exact remove_file_inv. Qed.
 
 (* ... and it leaves the content of every other file unchanged, as far as elements of other files are concerned: an
    element that is attributed to some other file stays in the model and is attributed to exactly the same other files.
-   (The converse — no other file gains an element, i.e. every element attributed to the removed file alone is deleted —
-   fails in the model exactly when a deletion fails, see finding C10-shortname-own-file-set; it is checked on the
-   implementation by the oracle.) *)
+   (The converse — every element attributed to the removed file alone is deleted — is C10_remove_file_exact below; it
+   needs the side condition of finding C10-shortname-own-file-set.) *)
 Theorem C10_remove_file_keeps :
   forall (T : tables) (m f : N) (w : world) (r : out unit) (w' : world) (x : model),
   TreeInv w -> FilesInv T w ->
@@ -123,6 +126,42 @@ Theorem C10_remove_file_keeps :
   forall i g, Reach w (m_root x) i -> g <> f -> Attributed w i g ->
     Reach w' (m_root x) i /\ forall h, h <> f -> (Attributed w i h <-> Attributed w' i h).
 Proof. exact remove_file_keeps. Qed.
+
+(* remove_file of a file f of model m while another file remains, no SHORT-NAME element carrying a local file set:
+   the elements that are still in the model afterwards are EXACTLY those that were attributed to some other file —
+   every element attributed to f alone is deleted (each deletion of the scan list succeeds), nothing else is. *)
+Theorem C10_remove_file_exact :
+  forall (T : tables) (m f : N) (w : world) (r : out unit) (w' : world) (x : model),
+  TreeInv w -> FilesInv T w ->
+  Known_root_last w (OpRemoveFile m f) = false -> Unowned w (OpRemoveFile m f) = false -> last_file w (OpRemoveFile m f) = false ->
+  (forall i n, Reach w (m_root x) i -> w_nodes w i = Some n -> n_name n = SHORT T -> n_files n = []) ->
+  m_remove_file T m f w = Val (r, w') -> model_b w m = Some x -> In f (m_files x) ->
+  forall i, Reach w (m_root x) i -> (Reach w' (m_root x) i <-> exists g, g <> f /\ Attributed w i g).
+Proof. exact remove_file_exact. Qed.
+
+(* ... and, the path index of the result being exact (C04), a removed element has no index entry *)
+Theorem C10_remove_file_exact_index :
+  forall (T : tables) (m f : N) (w : world) (r : out unit) (w' : world) (x : model),
+  TreeInv w -> FilesInv T w ->
+  Known_root_last w (OpRemoveFile m f) = false -> Unowned w (OpRemoveFile m f) = false -> last_file w (OpRemoveFile m f) = false ->
+  (forall i n, Reach w (m_root x) i -> w_nodes w i = Some n -> n_name n = SHORT T -> n_files n = []) ->
+  m_remove_file T m f w = Val (r, w') -> model_b w m = Some x -> In f (m_files x) ->
+  Index.IndexExact T w' m ->
+  forall i, Reach w (m_root x) i -> ~ (exists g, g <> f /\ Attributed w i g) ->
+  forall x' p, model_b w' m = Some x' -> assoc_get p (m_idents x') <> Some i.
+Proof. exact remove_file_exact_index. Qed.
+
+(* ... and, the referrer table of the result being exact (C05), a removed reference element is no referrer *)
+Theorem C10_remove_file_exact_refs :
+  forall (T : tables) (m f : N) (w : world) (r : out unit) (w' : world) (x : model),
+  TreeInv w -> FilesInv T w ->
+  Known_root_last w (OpRemoveFile m f) = false -> Unowned w (OpRemoveFile m f) = false -> last_file w (OpRemoveFile m f) = false ->
+  (forall i n, Reach w (m_root x) i -> w_nodes w i = Some n -> n_name n = SHORT T -> n_files n = []) ->
+  m_remove_file T m f w = Val (r, w') -> model_b w m = Some x -> In f (m_files x) ->
+  Index.RefsExact T w' m ->
+  forall i, Reach w (m_root x) i -> ~ (exists g, g <> f /\ Attributed w i g) ->
+  forall x' p, model_b w' m = Some x' -> ~ In i (Index.origins_of x' p).
+Proof. exact remove_file_exact_refs. Qed.
 
 (* remove_file of the last file: the model is empty again *)
 Theorem C10_remove_last_file :
